@@ -116,6 +116,7 @@ func ssOpen(cfg ssCfg, root string) (*ssSess, error) {
 		}
 	} else {
 		s.fs = newCntFS(cfg.Tree)
+		s.fs.closeErrPct, s.fs.closeErrSeed = cfg.CloseErr, cfg.CloseErrSeed
 	}
 	var err error
 	s.srv, err = ssStart(cfg, s.tree, s.fs)
@@ -378,12 +379,17 @@ func ssRunC11(cfg ssCfg, prog []ssStep, end ssEnd, root string) ssResult {
 		if k == "os" {
 			return s.state() + "\nfds: " + strings.Join(ssFDs(s.root), " ")
 		}
-		return s.state() + fmt.Sprintf("\n%+v", s.fs.objStates())
+		var sb strings.Builder
+		sb.WriteString(s.state())
+		for _, o := range s.fs.objStates() {
+			fmt.Fprintf(&sb, "\nobject %+v", o)
+		}
+		return sb.String()
 	}
 	dead := false
 	for i := 0; i <= last; i++ {
-		f := prog[i].frame(i, cfg, s.tree, handles)
-		q, why := ssParseReq(f[4], f[5:])
+		fs := prog[i].frames(i, cfg, s.tree, handles)
+		q, why := ssParseReq(fs[0][4], fs[0][5:])
 		if why != "" {
 			add(ssFinding{Key: "tie/generator-frame-" + why, What: "the generator produced a frame its own judge rejects"})
 			break
@@ -393,6 +399,9 @@ func ssRunC11(cfg ssCfg, prog []ssStep, end ssEnd, root string) ssResult {
 		if stale {
 			res.Hist = append(res.Hist, "stale/"+q.Kind)
 		}
+		if len(fs) > 1 {
+			res.Hist = append(res.Hist, fmt.Sprintf("pipelined-burst/%s/stale=%v", q.Kind, stale))
+		}
 		before, nobj := "", 0
 		if stale && !noreply {
 			before = sig()
@@ -400,21 +409,32 @@ func ssRunC11(cfg ssCfg, prog []ssStep, end ssEnd, root string) ssResult {
 		if k == "rs" {
 			nobj = len(s.fs.objStates())
 		}
-		s.srv.Send(f)
+		s.srv.Send(bytes.Join(fs, nil)) // a burst goes out in one write: pipelined
 		if q.Kind == "close" {
 			closeSent[q.Handle] = true
 		}
 		if noreply {
 			break
 		}
-		rep, err := s.srv.Recv(ssDlHang())
-		if err != nil {
-			add(ssFinding{Key: fmt.Sprintf("%s/valid-request-unanswered/%s", k, q.Kind), What: "no reply to a valid request with the stream still open: " + err.Error(), Actual: fmt.Sprintf("step %d %+v", i, prog[i])})
-			res.Exit, res.Slow = err == errSSTimeout, err == errSSTimeout
-			dead = true
+		var rep wire.Pkt
+		for n := range fs {
+			qn := q
+			if len(fs) > 1 {
+				qn.ID = ssBurstID(i, n)
+			}
+			var err error
+			rep, err = s.srv.Recv(ssDlHang())
+			if err != nil {
+				add(ssFinding{Key: fmt.Sprintf("%s/valid-request-unanswered/%s", k, q.Kind), What: "no reply to a valid request with the stream still open: " + err.Error(), Actual: fmt.Sprintf("step %d %+v (reply %d of %d)", i, prog[i], n+1, len(fs))})
+				res.Exit, res.Slow = err == errSSTimeout, err == errSSTimeout
+				dead = true
+				break
+			}
+			res.Findings = append(res.Findings, s.trk.observe(qn, rep)...)
+		}
+		if dead {
 			break
 		}
-		res.Findings = append(res.Findings, s.trk.observe(q, rep)...)
 		if stale {
 			if after := sig(); after != before {
 				add(ssFinding{Key: fmt.Sprintf("%s/stale-handle-acted/%s", k, q.Kind), What: fmt.Sprintf("%s naming the never-issued or closed handle %q touched files or handlers", q.Kind, q.Handle), Expected: ssDiffText(before, after, "-"), Actual: ssDiffText(after, before, "+")})
